@@ -619,8 +619,9 @@ func (fr *frame) slice(x *ssa.Slice, st *State, reach string) {
 // ---------------------------------------------------------------------------
 // maps: a Go map is a reference to a cell (dom: Array K Bool, val: Array K V)
 
-func (fr *frame) mapSorts(mt *types.Map) (ks, vs, cell string) {
-	g := fr.ft.g
+func (fr *frame) mapSorts(mt *types.Map) (ks, vs, cell string) { return fr.ft.g.mapSorts(mt) }
+
+func (g *Gen) mapSorts(mt *types.Map) (ks, vs, cell string) {
 	ks, vs = g.reg.SortOf(mt.Key()), g.reg.SortOf(mt.Elem())
 	cell = "Map_" + mangle(ks) + "_" + mangle(vs)
 	if !g.reg.seen[cell] {
